@@ -105,6 +105,96 @@ func concObjectParams(k int) string {
 	return fmt.Sprintf(`{"a":%d,"b":"s%d","c":[%d,%d],"d":{"k":%d},"e":{"x":%d},"f":%d}`, k, k, k, k+1, k, k, k)
 }
 
+// c16picky is an argument type with its own UnmarshalJSON, which refuses one value with an
+// error that carries a JSON-RPC code of its own: to the caller of the handler that is
+// still "the params could not be decoded" - InvalidParams, function not called.
+type c16picky string
+
+func (p *c16picky) UnmarshalJSON(b []byte) error {
+	var s string
+	if err := json.Unmarshal(b, &s); err != nil {
+		return err
+	}
+	if s == "mallory" {
+		return jrpc2.Errorf(1404, "no such user %q", s)
+	}
+	*p = c16picky(s)
+	return nil
+}
+
+type c16recv struct{ tag string }
+
+func (r *c16recv) M(ctx context.Context, a int, b string) (string, error) {
+	return fmt.Sprintf("%s:%d:%s", r.tag, a, b), nil
+}
+
+// c16siblings: function values that share their code - closures made by one function
+// literal, one method bound to several receivers - are different functions; a handler
+// built from one of them calls that one.
+func c16siblings(c *vt.Ctx) {
+	defer func() {
+		if p := recover(); p != nil {
+			c.Failf("siblings: panic: %v", p)
+		}
+	}()
+	mk := func(tag string, calls *int) func(context.Context, int, string) (string, error) {
+		return func(ctx context.Context, a int, b string) (string, error) {
+			*calls++
+			return fmt.Sprintf("%s:%d:%s", tag, a, b), nil
+		}
+	}
+	const n = 4
+	calls := make([]int, n)
+	var hs []jrpc2.Handler
+	for i := 0; i < n; i++ {
+		hs = append(hs, handler.NewPos(mk(fmt.Sprintf("f%d", i), &calls[i]), "a", "b"))
+	}
+	for i := 0; i < n; i++ {
+		hs = append(hs, handler.NewPos((&c16recv{tag: fmt.Sprintf("r%d", i)}).M, "a", "b"))
+	}
+	for round := 0; round < 2; round++ {
+		for i, h := range hs {
+			want := fmt.Sprintf("f%d:%d:x", i, i+10)
+			if i >= n {
+				want = fmt.Sprintf("r%d:%d:x", i-n, i+10)
+			}
+			for _, params := range []string{fmt.Sprintf(`[%d,"x"]`, i+10), fmt.Sprintf(`{"a":%d,"b":"x"}`, i+10)} {
+				v, err := h(context.Background(), concReq(params))
+				if got, _ := v.(string); err != nil || got != want {
+					c.Failf("siblings: handler %d built from its own function value, params %s: got (%v, %v), want %q - another function value with the same code was called", i, params, v, err, want)
+				}
+				c.Eval(1)
+			}
+		}
+	}
+	for i := 0; i < n; i++ {
+		if calls[i] != 4 {
+			c.Failf("siblings: closure %d was called %d times, want 4", i, calls[i])
+		}
+	}
+	// the picky argument type
+	called := 0
+	ph := handler.NewPos(func(ctx context.Context, who c16picky, k int) (string, error) {
+		called++
+		return string(who), nil
+	}, "who", "k")
+	for _, params := range []string{`["mallory",1]`, `{"who":"mallory","k":1}`, `{"who":"mallory"}`} {
+		v, err := ph(context.Background(), concReq(params))
+		if err == nil || jrpc2.ErrorCode(err) != jrpc2.InvalidParams {
+			c.Failf("siblings: params %s, which the argument's own UnmarshalJSON refuses: got (%v, %v), want an InvalidParams error", params, v, err)
+		}
+		c.Eval(1)
+	}
+	if v, err := ph(context.Background(), concReq(`["alice",2]`)); err != nil || v != "alice" {
+		c.Failf("siblings: params [\"alice\",2]: got (%v, %v)", v, err)
+	}
+	if called != 1 {
+		c.Failf("siblings: the function with the picky argument was called %d times, want 1", called)
+	}
+	c.Distinct("siblings")
+	c.Count("sibling_function_values_checked", 2*n)
+}
+
 func concCases(prop string) func(e vt.Env, yield func(vt.Case) bool) {
 	return func(e vt.Env, yield func(vt.Case) bool) {
 		gor, per := 8, e.Pick(1500, 20000)
@@ -148,6 +238,11 @@ func concCases(prop string) func(e vt.Env, yield func(vt.Case) bool) {
 				{"conc/New/pointer/array", func() jrpc2.Handler { return handler.New(ptrFn) }, concArrayParams},
 				{"conc/New/context-only", func() jrpc2.Handler { return handler.New(ctxOnlyFn) }, func(int) string { return "" }},
 				{"conc/New/request", func() jrpc2.Handler { return handler.New(reqFn) }, concObjectParams},
+			}
+		}
+		if prop == "C16" {
+			if !yield(vt.Case{ID: "siblings/NewPos", Run: c16siblings}) {
+				return
 			}
 		}
 		for _, it := range items {
